@@ -115,10 +115,41 @@ def setters(ctx: Ctx):
     for file, qn, pat in spec:
         fn = repo.func(file, qn)
         ps = flow.paths(fn.node)
+        if qn.endswith("tick_energy_dispensed"):
+            dispensed_setter(ctx, fn, ps)
+            continue
         want = flow.dump(_expr(pat.format(fn.params[1])))
         ok = len(ps) == 1 and ps[0].kind == "return" and flow.dump(ps[0].value) == want
         ctx.check(ok, "D2", "DU.setter", f"{qn}: unconditional {want[:70]}", fn,
                   why_bad=f"{len(ps)} path(s); returns {[flow.dump(p.value)[:140] for p in ps if p.kind == 'return']}", construct=f"{qn}:shape")
+
+
+def dispensed_setter(ctx: Ctx, fn, ps):
+    """energy_dispensed' = {k: old[k] + delta(k)} ranging over the station's OWN energy types (ranging
+    over the delta's keys would drop the totals of every other type)."""
+    delta = fn.params[1]
+    qn = fn.qualname
+    if not (len(ps) == 1 and ps[0].kind == "return"):
+        ctx.violation("D2", "DU.setter", f"{qn}: not an unconditional update", fn, why=f"{len(ps)} paths", construct=f"{qn}:shape")
+        return
+    v = ps[0].value
+    kw = {k.arg: k.value for k in v.keywords} if isinstance(v, ast.Call) else {}
+    comp = None
+    for n in ast.walk(kw.get("energy_dispensed", ast.Constant(value=None))):
+        if isinstance(n, ast.DictComp):
+            comp = n
+    if comp is None or len(comp.generators) != 1:
+        raise AnalysisError(f"{qn}: energy_dispensed is not built by a single dict comprehension")
+    it = flow.dump(comp.generators[0].iter)
+    own = it in ("self.energy_dispensed.keys()", "self.energy_dispensed", "self.energy_dispensed.items()", "sorted(self.energy_dispensed.keys())", "sorted(self.energy_dispensed)")
+    from_delta = flow.mentions(comp.generators[0].iter, delta) and not flow.mentions(comp.generators[0].iter, "self")
+    adds = isinstance(comp.value, ast.BinOp) and isinstance(comp.value.op, ast.Add) and flow.mentions(comp.value, delta)
+    if from_delta:
+        ctx.violation("D2", "DU.setter", f"{qn}: ranges over the delta's keys", fn, why=f"iterates {it}: running totals of every other energy type are dropped", construct=f"{qn}:shape")
+    elif own and adds and not comp.generators[0].ifs:
+        ctx.ok("D2", "DU.setter", f"{qn}: dispensed[k] += delta(k) for every energy type of the station", fn)
+    else:
+        raise AnalysisError(f"{qn}: unrecognised comprehension over {it}")
 
 
 def writers(ctx: Ctx):
@@ -166,7 +197,7 @@ def pickup_rule(ctx: Ctx):
     sim, env, vid, rid = fn.params[:4]
     n = 0
     for p in flow.paths(fn.node):
-        if p.kind != "return" or flow.classify_result(p.value) != "delegate":
+        if p.kind != "return" or flow.classify_result(p.value) not in ("delegate", "ok", "pair"):
             continue
         if p.has_marker("except"):
             continue
